@@ -145,7 +145,16 @@ class UDPMessageDeserializer:
             return
         msg.raw_body = None
         msg.deserializer = None
+        try:
+            self._parse_message_body(msg, raw_body)
+        except:
+            # A body we can't parse should still be forwardable as it arrived
+            msg.blocks = {}
+            msg.raw_body = raw_body
+            msg.deserializer = weakref.ref(self)
+            raise
 
+    def _parse_message_body(self, msg: Message, raw_body: bytes):
         if msg.zerocoded:
             raw_body = self.zero_code_expand(raw_body)
 
